@@ -705,13 +705,13 @@ def plan(seed, tier):
         items.append({'id': f'd4-{rep}', 'kind': 'restore-preempt', 'case': f'd4-{rep}', 'small': 'd4', 'bound': 1 if quick else 2, 'budget': 40 if quick else 400,
                       'budget2': 0 if quick else 300})
     for rep in range(2 if quick else 6):
-        items.append({'id': f'sh3-{rep}', 'kind': 'restore-preempt', 'case': f'sh3-{rep}', 'small': 'share3', 'bound': 1 if quick else 2, 'budget': 30 if quick else 400,
-                      'budget2': 0 if quick else 300})
+        items.append({'id': f'sh3-{rep}', 'kind': 'restore-preempt', 'case': f'sh3-{rep}', 'small': 'share3', 'bound': 1 if quick else 2, 'budget': 30 if quick else 120,
+                      'budget2': 0 if quick else 150})
     items.append({'id': 'abort1', 'kind': 'random', 'case': 'ab1', 'small': 'abort1', 'strategies': [['random'], ['fifo']], 'fail_first': True, 'time_box': 40})
     for n in ((1, 2, 3) if quick else (1, 2, 3, 5)):
         items.append({'id': f'cli{n}', 'kind': 'cli-failure', 'case': f'cli{n}', 'n': n, 'chunks': 12 if n < 5 else 24, 'pseed': seed})
     # (ii) random / PCT on generated cases
-    nrand = 40 if quick else 700
+    nrand = 64 if quick else 700
     for k in range(nrand):
         items.append({'id': f'g{k}', 'kind': 'random', 'case': f'g{k}', 'strategies': [['pct', 2, 0], ['pct', 3, 0], ['random']] if not quick else [['pct', 3, 0], ['random']],
                       'fail': k % 4 == 3, 'time_box': 40 if quick else 90})
